@@ -170,6 +170,64 @@ pub fn pool(t: &mut Toks) -> String {
     out
 }
 
+/// case: cancelwin <variant 0|1> <prio 0|1|2> <prio of the later requests 0|1|2>
+///   a requester is cancelled (its future dropped) in the windows between "granted" and "holding":
+///   variant 0: it waits behind a holder; the holder releases, the dispatcher hands it the turn
+///              (the grant sits in its mailbox), and it is dropped before it is polled again;
+///   variant 1: the write permit is momentarily taken by somebody else; the requester gets the
+///              turn and the pooled connection and parks on the permit; it is dropped there.
+///   Afterwards three more requests must be served (the model: Cancel of the holder frees the
+///   connection, C20_cancelled_holder_frees).
+/// obs: parked=<1 if the requester was still pending when dropped> served=<0..3>
+pub fn cancelwin(t: &mut Toks) -> String {
+    use std::task::Poll;
+    let rt = tokio::runtime::Builder::new_multi_thread().worker_threads(4).enable_all().build().unwrap();
+    let variant = t.u64();
+    let p = t.u64();
+    let p2 = t.u64();
+    let out = rt.block_on(async move {
+        let kit = agentkit::new_agent(|_| {}).await;
+        let pool = kit.agent.pool().clone();
+        async fn settle() {
+            for _ in 0..50 { tokio::task::yield_now().await; }
+            tokio::time::sleep(Duration::from_millis(20)).await;
+        }
+        async fn req(pool: &klukai_types::agent::SplitPool, p: u64) -> Result<klukai_types::agent::WriteConn, klukai_types::agent::PoolError> {
+            match p { 0 => pool.write_priority().await, 1 => pool.write_normal().await, _ => pool.write_low().await }
+        }
+        let mut parked = true;
+        if variant == 0 {
+            let holder = match tokio::time::timeout(Duration::from_secs(15), pool.write_priority()).await { Ok(Ok(c)) => c, _ => return "parked=0 served=0 holder=0".to_string() };
+            let mut queued = Box::pin(req(&pool, p));
+            if !matches!(futures::poll!(queued.as_mut()), Poll::Pending) { parked = false; }
+            settle().await;
+            if !matches!(futures::poll!(queued.as_mut()), Poll::Pending) { parked = false; }
+            drop(holder);
+            settle().await;          // the dispatcher hands the turn to the queued request ...
+            drop(queued);            // ... which goes away before it runs again
+        } else {
+            let permit = kit.agent.write_sema().clone().acquire_owned().await.unwrap();
+            let mut granted = Box::pin(req(&pool, p));
+            for _ in 0..5 {
+                if !matches!(futures::poll!(granted.as_mut()), Poll::Pending) { parked = false; }
+                settle().await;
+            }
+            drop(granted);           // owns the turn and the connection, parked on the permit
+            drop(permit);
+        }
+        let mut served = 0;
+        for _ in 0..3 {
+            match tokio::time::timeout(Duration::from_secs(5), req(&pool, p2)).await {
+                Ok(Ok(c)) => { let _ = tokio::task::block_in_place(|| c.query_row("SELECT 1", [], |r| r.get::<_, i64>(0))); served += 1; }
+                _ => break,
+            }
+        }
+        format!("parked={} served={}", if parked { 1 } else { 0 }, served)
+    });
+    rt.shutdown_background();
+    out
+}
+
 fn change(actor: ActorId, v: u64, seq: u64, id: i64) -> klukai_types::change::Change {
     agentkit::mk_change(actor, v, seq, id, &format!("w{v}-{seq}"), 1, 1)
 }
